@@ -8,7 +8,7 @@ from . import harness
 SYMS = ["", "$", "<", ">"]
 IDS = [""] + list(range(13))
 PREFIXES = ["", "-", "=", "#", ":"]
-WEIGHTS = ["", "|2.5|", "|1 2 3|"]
+WEIGHTS = ["", "|2.5|", "|1 2 3|", "|0|", "|0 0|"]
 KEYS = ["bond.BondDescriptor.is_compatible", "core.get_compatible_bond_descriptor_ids"]
 
 
